@@ -533,7 +533,7 @@ def body(chk):
 RULE = ("random expression trees (quick: depth <= 3, thorough: depth <= 4) over public constructors (parametric with interval parameters, the distribution-free family, "
         "interval, Dempster-Shafer, KS/ECDF bounds, stacking, Staircase(left, right) at 1, 2, 50, 200 and 333 steps) and + - * / under the dependencies f p o i, "
         "numbers on either side, negation, reciprocal, exp / sqrt / log, envelope, imposition. EVERY value produced on the way (not only the root) is examined: "
-        "step count, NaN, monotone bounds, left <= right, reported support, mean inside the support, variance in [0, w^2/4], the 666 placeholder. Every second tree runs "
+        "step count, NaN, monotone bounds, left <= right, reported support, mean inside the support, variance in [0, w^2/4], the 666 placeholder. Extras outside the grammar (oracle only): trigonometric maps, condensation, truncation, min / max, p-box and real-number powers (zero at an endpoint included, library moment pipeline), results overflowing at one / several steps, aggregation functions. Every second tree runs "
         "with the LP moment estimator disabled to exercise the fallback estimator. The root value (or the exception of the first failing node) is compared with the Coq "
         "expression evaluator run on binary64. distinct key = (expression text, first left values, last right values, estimator mode)")
 TB = ["scipy's LP (variance_bounds_via_lp) is a library: its results are examined, not modelled; disabling it in half of the trees is done inside the harness process only",
